@@ -1,0 +1,76 @@
+//! Verification-only accessors, compiled only with the cargo feature `verif-hooks`.
+//!
+//! They hand the actor's event-loop future to the caller instead of a runtime, so that an external replay harness can
+//! poll the loop and its clients in a recorded order.  Nothing here changes the behaviour of the library.
+#![allow(clippy::type_complexity)]
+use std::{future::Future, pin::Pin, time::Duration};
+
+use crate::{
+    Actor, Addr, DynResult, StreamHandler,
+    actor::restart_strategy::{NonRestartable, RecreateFromDefault, RestartOnly, RestartStrategy},
+    channel::Channel,
+    environment::{Environment, EnvironmentConfig},
+};
+
+pub type LoopFuture<A> = Pin<Box<dyn Future<Output = DynResult<A>> + Send>>;
+
+fn channel<A: Actor>(capacity: Option<usize>) -> Channel<A> {
+    match capacity {
+        Some(n) => Channel::bounded(n),
+        None => Channel::unbounded(),
+    }
+}
+
+fn event_loop_with<A: Actor, R: RestartStrategy<A> + 'static>(
+    actor: A,
+    capacity: Option<usize>,
+    timeout: Option<Duration>,
+    fail_on_timeout: bool,
+) -> (LoopFuture<A>, Addr<A>) {
+    let config = EnvironmentConfig { timeout, fail_on_timeout };
+    let (event_loop, addr) =
+        Environment::<A, R>::from_channel(channel(capacity)).with_config(config).create_loop(actor);
+    (Box::pin(event_loop), addr)
+}
+
+/// Event loop with the default restart strategy.
+pub fn event_loop<A: Actor>(
+    actor: A,
+    capacity: Option<usize>,
+    timeout: Option<Duration>,
+    fail_on_timeout: bool,
+) -> (LoopFuture<A>, Addr<A>) {
+    event_loop_with::<A, RestartOnly>(actor, capacity, timeout, fail_on_timeout)
+}
+
+/// Event loop that recreates the actor from `Default` on restart.
+pub fn event_loop_recreating<A: Actor + Default>(
+    actor: A,
+    capacity: Option<usize>,
+    timeout: Option<Duration>,
+    fail_on_timeout: bool,
+) -> (LoopFuture<A>, Addr<A>) {
+    event_loop_with::<A, RecreateFromDefault>(actor, capacity, timeout, fail_on_timeout)
+}
+
+/// Event loop of a non-restartable actor.
+pub fn event_loop_non_restartable<A: Actor>(
+    actor: A,
+    capacity: Option<usize>,
+    timeout: Option<Duration>,
+    fail_on_timeout: bool,
+) -> (LoopFuture<A>, Addr<A>) {
+    event_loop_with::<A, NonRestartable>(actor, capacity, timeout, fail_on_timeout)
+}
+
+/// Event loop attached to a stream.
+pub fn event_loop_on_stream<A, S>(actor: A, capacity: Option<usize>, stream: S) -> (LoopFuture<A>, Addr<A>)
+where
+    S: futures::Stream + Unpin + Send + 'static,
+    S::Item: 'static + Send,
+    A: StreamHandler<S::Item>,
+{
+    let (event_loop, addr) = Environment::<A, NonRestartable>::from_channel(channel(capacity))
+        .create_loop_on_stream(actor, stream);
+    (Box::pin(event_loop), addr)
+}
